@@ -140,6 +140,12 @@ def run_execution(scn, dev=None, expect=None, opt=None, task=None, keep_args=Fal
     seams.install()
     pools.install()
     CTL.reset(dev, scn.get('seed', 0), menu3=scn.get('menu3', False), expect=expect)
+    if not scn.get('keep_ambient'):
+        # the ambient state of both generators is owned by the harness: an execution never depends on what ran before
+        # it in this process, whether or not the library reseeds for an unseeded task (C07 sets keep_ambient: there the
+        # ambient state is the thing being varied)
+        seams.ORIG_SEED(scn.get('seed', 0) % (2 ** 32))
+        seams.STD_SEED(scn.get('seed', 0))
     mode, workers = scn.get('mode'), scn.get('workers')
     out = io.StringIO()
     # every execution has a horizon: code that stops terminating must become a verdict, not a hung check
